@@ -341,7 +341,7 @@ def run(tier, seed):
     conts = [c for k in range(0, cl + 1) for c in itertools.product(calpha, repeat=k)]
     conts = [c for c in conts if len(c) < 2 or c in (('update_received', 'update_received'), ('open_received', 'update_received'),
                                                      ('big_update', 'update_received'), ('update_received', 'big_update'))]
-    seconds = [None, ('update_received',)] if tier == 'quick' else [None, ('update_received',), ('open_received', 'update_received')]
+    seconds = [None, ('update_received',)] if tier == 'quick' else [None, ('open_received', 'update_received')]
     for thr in THRESHOLDS:
         for h in hists:
             tasks.append((thr, h, conts, seconds, True, 'big_update' not in h))     # a 10 kB record: offsets near both ends, every 64th, buffer boundaries
